@@ -103,7 +103,11 @@ Definition cross_pairs (clients : list (list json)) : list (json * json) :=
                        (List.combine (seq 0 (length clients)) clients))
            (List.combine (seq 0 (length clients)) clients).
 
-(** D44: two overlapping writes to one id from different clients *)
+(** (was D44, repaired) two overlapping writes to one id from different clients: the memory update
+    and the storage write of a write used to be two critical sections (or one and an unlocked call),
+    so that the two writes could reach memory in one order and storage in the other.  Now they are
+    one critical section under the state's write lock: such histories are linearizable, the
+    predicate explains nothing any more and only the feature is kept. *)
 Definition kf_same_id_writes (clients : list (list json)) : bool :=
   existsb (fun ab => let '(a, b) := ab in
                      is_write_op a && is_write_op b && String.eqb (jfS "id" a) (jfS "id" b) &&
@@ -131,9 +135,9 @@ Definition check_conc (c : json) : json :=
   let sy0 := init_system (jfL "locs" c) in
   let clients := map jL (jfL "clients" c) in
   let crashed := jfS "crashed" c in
-  (* D46 (rule cache) and D52 (purge by the readers) are repaired: their predicates explain nothing
-     any more, only the features are kept *)
-  let kfs := (if kf_same_id_writes clients then ["D44"] else []) in
+  (* D44 (memory and storage written in two critical sections), D46 (rule cache) and D52 (purge by
+     the readers) are repaired: their predicates explain nothing any more, only the features are
+     kept; a history that is not linearizable is explained by no known finding *)
   let feats := ((if kf_same_id_writes clients then ["overlapping-writes-same-id"] else []) ++
                 (if kf_event_vs_rule_write clients then ["event-overlaps-rule-write"] else []) ++
                 (if expired_at_release (jfL "setup" c) clients then ["expired-at-release"] else []) ++
@@ -165,7 +169,7 @@ Definition check_conc (c : json) : json :=
             ("spec_ok", JBool good);
             ("spec_why", JStr (if good then "" else "the observed results and final memory/storage are not explained by any real-time-respecting sequential order"));
             ("spec_op", JStr "linearizable");
-            ("kf", jstrs_of (if good then [] else kfs));
+            ("kf", JArr []);
             ("features", jstrs_of ((if found then "linearizable" else if exhausted then "search-budget-exhausted" else "not-linearizable") :: feats));
             ("nontrivial", JBool (existsb (fun ab => overlap (fst ab) (snd ab)) (cross_pairs clients)));
             ("ambiguous", JNum (if exhausted then 1 else 0))]
